@@ -247,12 +247,48 @@ def redefined_alias_case(ctx, r):
         ctx.violation('scope:redefined-alias:wrong-binding', 'compiled to (opcode, value, is-register) %s; the later definitions give %s' % (got, want), replay); return
     ctx.count('redefined_alias_programs'); ctx.fp('redef', repr(maps))
 
+def barrier_shadow_case(ctx, r):
+    """A nested `const` (or function) whose definition names N, where the innermost visible declaration of N is a local or parameter
+    of an enclosing scope *and* N is also defined further out (const item, builtin const): the use refers to the innermost declaration,
+    which cannot be used there - an error; it must not quietly fall through to the outer definition.  With the inner declaration
+    removed (control) the same program is accepted."""
+    name = r.pick(['speed', 'PI', 'x', 'INF'])
+    builtin = name in ('PI', 'INF')
+    ty = 'float' if builtin else 'int'
+    lit = '3.5' if builtin else '3'
+    outer = '' if builtin else 'const int %s = 10;\n' % name
+    inner_kind = r.pick(['local', 'local-in-loop', 'local-deeper'])
+    use = r.pick(['%s * 2', '%s', '(%s + 1) - 1', '1 ? %s : 0']) % name if not builtin else r.pick(['%s * 2.0', '%s']) % name
+    nested = 'const %s twice = %s;' % (ty, use)
+    depth = r.randint(0, 2)
+    for _ in range(depth): nested = '{\n%s\n}' % nested
+    decl = '%s %s = %s;' % (ty, name, lit)
+    def prog(with_inner):
+        d = decl if with_inner else ''
+        if inner_kind == 'local': body = '%s\n%s' % (d, nested)
+        elif inner_kind == 'local-in-loop': body = 'loop {\n%s\n%s\nbreak;\n}' % (d, nested)
+        else: body = '{\n%s\n{\n%s\n}\n}' % (d, nested)
+        return '{\n%s%s\n}' % (outer, body)
+    for with_inner in (True, False):
+        text = prog(with_inner)
+        req = {'op': 'resolve', 'lang': LANG, 'mapfiles': S.MAPFILES, 'body': text, 'kind': 'block'}
+        resp = ctx.call(req); ctx.evaluations += 1
+        replay = {'req': req, 'expected': 'rejected (local used across a const barrier)' if with_inner else 'accepted'}
+        if 'panic' in resp: ctx.violation('scope:panic:' + core.panic_sig(resp['panic']), resp['panic']['msg'][:200], replay); return
+        if resp.get('stage') != 'done': ctx.inconcl('parse failure of directed program'); return
+        if with_inner and resp['resolved']:
+            ctx.violation('scope:accepts:local-across-const:shadowed-outer-definition', 'the nested const names `%s`, whose innermost declaration is an enclosing local; accepted (bound to the outer definition?)' % name, replay); return
+        if not with_inner and not resp['resolved']:
+            ctx.violation('scope:rejects-valid:%s' % core.norm_msg(core.headline(resp.get('diag', '')))[:60], resp.get('diag', '')[:300], replay); return
+    ctx.count('barrier_shadow_cases'); ctx.fp('barrier', name, inner_kind, depth, use)
+
 def run_shard(ctx):
     r = ctx.rng
     n = SIZES[ctx.tier] // ctx.nshards + 1
     done = 0
     while done < n:
         k = r.random()
+        if k > 0.96: barrier_shadow_case(ctx, r); done += 1; continue
         if k < 0.10: file_collision_case(ctx, r); done += 1; continue
         if k < 0.16: two_language_case(ctx, r); done += 1; continue
         if k < 0.24: enum_colour_case(ctx, r); done += 1; continue
